@@ -415,6 +415,9 @@ func evalClient(c clientCase) error {
 	return err
 }
 
+var clientAttacks = []string{"forged-plain-result", "corrupted-result", "mangled:flip", "mangled:truncate", "mangled:append", "mangled:garbage", "mangled:rekey",
+	"mangled:reflect", "mangled:evenid", "mangled:badlen"}
+
 func TestC04Client(t *testing.T) {
 	if p := hx.ReplayPath(); p != "" {
 		return // client-level replays run through TestC04's replay entry (kind field)
@@ -424,11 +427,15 @@ func TestC04Client(t *testing.T) {
 		sc := scen.NewResumed(s)
 		kind := rapid.SampledFrom(scen.ReqKinds).Draw(t, "kind")
 		tag := 2 * rapid.IntRange(1, 500).Draw(t, "tag")
-		attack := rapid.SampledFrom([]string{"forged-plain-result", "corrupted-result", "corrupted-result"}).Draw(t, "attack")
+		attack := rapid.SampledFrom(clientAttacks).Draw(t, "attack")
 		push := &scen.PushSpec{Kind: attack, Arg: int64(tag)}
 		if attack == "corrupted-result" {
 			bit := rapid.IntRange(0, 2000).Draw(t, "bit")
 			push.Body = []byte{byte(bit >> 8), byte(bit)}
+		}
+		if strings.HasPrefix(attack, "mangled:") {
+			a, b := rapid.IntRange(0, 65535).Draw(t, "a"), rapid.IntRange(0, 65535).Draw(t, "b")
+			push.Body = append([]byte{byte(a >> 8), byte(a), byte(b >> 8), byte(b)}, hx.FixedBytes(t, "noise", 8)...)
 		}
 		sc.RPC.Steps = []scen.Step{
 			{Op: "call", Calls: []scen.CallSpec{{Caller: 0, Reqs: []scen.ReqSpec{{Tag: tag, Kind: kind}}}}},
